@@ -174,13 +174,17 @@ def run_case(case):
     # dump the private cache of the reduction maps
     cache = getattr(simu, "__cachedComputedValues", {})
     entries = []
+    res["cache_unreadable"] = 0
     for key, val in cache.items():
         if key[0] != "__Get_csr_map":
             continue
-        dof_n, isM, Ndof, gs = key[1]
-        inv, indices, indptr, nnz = val
-        entries.append({"key": [int(dof_n), bool(isM), int(Ndof), [gid_of.get(id(g), -1) for g in gs]],
-                        "val": [[int(v) for v in inv], [int(v) for v in indices], [int(v) for v in indptr], [int(nnz)]]})
+        try:
+            dof_n, isM, Ndof, gs = key[1]
+            inv, indices, indptr, nnz = val
+            entries.append({"key": [int(dof_n), bool(isM), int(Ndof), [gid_of.get(id(g), -1) for g in gs]],
+                            "val": [[int(v) for v in inv], [int(v) for v in indices], [int(v) for v in indptr], [int(nnz)]]})
+        except Exception:   # the cache key/value layout changed: reported as a (soft) tie loss by the driver
+            res["cache_unreadable"] += 1
     res["cache"] = entries
     return res
 
